@@ -145,15 +145,17 @@ theorem batched_inverse_correct (J : Nat) (h1 : 1 ≤ J) (h4 : J ≤ 4) (a : Nat
   rw [e1, e2, hfl]
 
 
-/-- **sse_leaf_kernels_correct** — the SSE intrinsic leaf kernels `_inverse<float,4>`, `_inverse<float,2>`,
-    `_inverse<double,2>` (hand models `Sse.inv4f`, `Sse.inv2f`, `Sse.inv2d` of Model/InverseSse.lean: registers as lane
+/-- **sse_leaf_kernels_correct** — the SSE intrinsic leaf kernels `_inverse<float,4>`, `_inverse<double,4>`,
+    `_inverse<float,2>`, `_inverse<double,2>` (hand models `Sse.inv4f`, `Sse.inv4d`, `Sse.inv2f`, `Sse.inv2d` of Model/InverseSse.lean: registers as lane
     tuples, every shuffle immediate / `movelh` / `movehl` / `_ss` form / sign mask as in the source; the floating point
     operations read as field operations) return, on every matrix with non-zero determinant, exactly the matrix of the
     scalar closed form — the inverse. -/
 theorem sse_leaf_kernels_correct (A : Mat K) :
     (leafDet 4 (flat 4 A) ≠ 0 →
       toMat 4 4 (unflat 4 (Sse.inv4f (flat 4 A))) = toMat 4 4 (leafInv 4 A)
-      ∧ toMat 4 4 (unflat 4 (Sse.inv4f (flat 4 A))) * toMat 4 4 A = 1) ∧
+      ∧ toMat 4 4 (unflat 4 (Sse.inv4d (flat 4 A))) = toMat 4 4 (leafInv 4 A)
+      ∧ toMat 4 4 (unflat 4 (Sse.inv4f (flat 4 A))) * toMat 4 4 A = 1
+      ∧ toMat 4 4 (unflat 4 (Sse.inv4d (flat 4 A))) * toMat 4 4 A = 1) ∧
     (leafDet 2 (flat 2 A) ≠ 0 →
       toMat 2 2 (unflat 2 (Sse.inv2f (flat 2 A))) = toMat 2 2 (leafInv 2 A)
       ∧ toMat 2 2 (unflat 2 (Sse.inv2d (flat 2 A))) = toMat 2 2 (leafInv 2 A)
@@ -161,7 +163,9 @@ theorem sse_leaf_kernels_correct (A : Mat K) :
       ∧ toMat 2 2 (unflat 2 (Sse.inv2d (flat 2 A))) * toMat 2 2 A = 1) := by
   refine ⟨fun h => ?_, fun h => ?_⟩
   · have h1 := leaf_of_flat 4 A Sse.inv4f (Sse.inv4f_flat _ h)
-    exact ⟨Sse.left_inv_unique _ _ _ h1 (leaf_left 4 (by omega) (by omega) A h), h1⟩
+    have h2 := leaf_of_flat 4 A Sse.inv4d (Sse.inv4d_flat _ h)
+    have h0 := leaf_left 4 (by omega) (by omega) A h
+    exact ⟨Sse.left_inv_unique _ _ _ h1 h0, Sse.left_inv_unique _ _ _ h2 h0, h1, h2⟩
   · have h1 := leaf_of_flat 2 A Sse.inv2f (Sse.inv2f_flat _ h)
     have h2 := leaf_of_flat 2 A Sse.inv2d (Sse.inv2d_flat _ h)
     have h0 := leaf_left 2 (by omega) (by omega) A h
@@ -191,13 +195,16 @@ example : toMat 2 2 (unitLowerPart ({ get := fun i j => if i = 1 ∧ j = 0 then 
   fin_cases i <;> fin_cases j <;> simp [Matrix.mul_apply, Fin.sum_univ_succ, unitLowerPart, triu, applyPivot] <;> norm_num
 
 /-- **det_closed_form** — the determinant expression the closed forms divide by (`det` of `_inverse<T,n>`, the same
-    cofactor expansions `_det<T,n,n>` of backend/determinant.h uses) is the Leibniz determinant, `n ≤ 3` -/
+    cofactor expansions `_det<T,n,n>` of backend/determinant.h uses) is the Leibniz determinant, `n ≤ 4` -/
 theorem det_closed_form (A : Mat K) :
     leafDet 1 (flat 1 A) = (toMat 1 1 A).det ∧ leafDet 2 (flat 2 A) = (toMat 2 2 A).det
-      ∧ leafDet 3 (flat 3 A) = (toMat 3 3 A).det := by
-  refine ⟨?_, ?_, ?_⟩
+      ∧ leafDet 3 (flat 3 A) = (toMat 3 3 A).det ∧ leafDet 4 (flat 4 A) = (toMat 4 4 A).det := by
+  refine ⟨?_, ?_, ?_, ?_⟩
   · simp [leafDet, flat, Matrix.det_fin_one]
   · simp [leafDet, flat, Matrix.det_fin_two]; ring
   · simp [leafDet, flat, Matrix.det_fin_three]; ring
+  · rw [Matrix.det_succ_row_zero]
+    simp [Fin.sum_univ_succ, Matrix.det_fin_three, Matrix.submatrix_apply, Fin.succAbove, leafDet, flat]
+    ring
 
 end Fastor.C10
